@@ -337,6 +337,18 @@ Definition map_wide (m : mapping) : bool :=
   forallb (fun kv => let l := lex_module (snd kv) in negb (has_err l) && match ptype l with Some (_, []) => true | _ => false end) m.
 Definition key_ok (t : tstruct) : bool :=
   match t with TPrim p => in_names p ["string"; "number"]%string | _ => false end.
+(* run-time domain of the correspondence check: map keys may also be project types (enums) or mapped
+   names; the theorems keep [dom] (string / number keys) *)
+Definition key_ok_w (t : tstruct) : bool :=
+  key_ok t || match t with TCustom n => name_ok n | _ => false end.
+Fixpoint dom_w (t : tstruct) : bool :=
+  match t with
+  | TPrim p => in_names p prim_names
+  | TCustom n => name_ok n
+  | TArr u | TSet u | TOpt u | TRes u => dom_w u
+  | TMap k v => key_ok_w k && dom_w v
+  | TTuple l => forallb dom_w l
+  end.
 Fixpoint dom (t : tstruct) : bool :=
   match t with
   | TPrim p => in_names p prim_names
